@@ -10,6 +10,8 @@ package main
 //           `minus:r:a`, `clone:r`; a = `n` is a nil argument) form a history on the same objects: every result is
 //           appended as a new object and after every op ALL objects are printed `<o0>|<o1>|…|<result>`.  A stream
 //           written `[0.1+2]` is built with two spare slots of capacity behind its two items.
+// Long operands are written compactly: `[0.1.2*140]` = the pattern cycled to 140 items; a map entry `0-63:5` /
+// `0-63:[0.1*70]` = the keys 0..63 each with that value / stream.
 // Function arguments (`s.map:k`, `s.filter:k`, `s.sort:k`, `m.mapkey:k`, …) index the family shared with C04
 // (c04MapFn, c04PredFn, c04LessFn, c04KeyFn, c04ValFn).
 // `nil` = nil slice for function operands, nil pointer / nil interface for method arguments; a
@@ -56,8 +58,42 @@ func c05ParseIntsSpare(s string) ([]int, int, bool) {
 		}
 		spare, body = n, body[:k]
 	}
+	// `0.1.2*140` = the pattern cycled to 140 items
+	if k := strings.Index(body, "*"); k >= 0 {
+		n, err := strconv.Atoi(body[k+1:])
+		pat, ok := c05ParseIntsBody(body[:k])
+		if err != nil || n < 0 || !ok || (n > 0 && len(pat) == 0) {
+			return nil, 0, false
+		}
+		v := make([]int, n)
+		for i := range v {
+			v[i] = pat[i%len(pat)]
+		}
+		return v, spare, true
+	}
 	v, ok := c05ParseIntsBody(body)
 	return v, spare, ok
+}
+
+// key part of a map entry: `7` or the range `0-63`
+func c05ParseKeys(s string) ([]int, bool) {
+	if k := strings.Index(s, "-"); k > 0 {
+		a, e1 := strconv.Atoi(s[:k])
+		b, e2 := strconv.Atoi(s[k+1:])
+		if e1 != nil || e2 != nil || a < 0 || a > b {
+			return nil, false
+		}
+		r := make([]int, 0, b-a+1)
+		for x := a; x <= b; x++ {
+			r = append(r, x)
+		}
+		return r, true
+	}
+	a, err := strconv.Atoi(s)
+	if err != nil {
+		return nil, false
+	}
+	return []int{a}, true
 }
 
 func c05ParseIntsBody(body string) ([]int, bool) {
@@ -142,12 +178,14 @@ func c05ParseMap(s string) (c05Map, bool) {
 		if len(p) != 2 {
 			return m, false
 		}
-		k, e1 := strconv.Atoi(p[0])
+		ks, ok := c05ParseKeys(p[0])
 		v, e2 := strconv.Atoi(p[1])
-		if e1 != nil || e2 != nil {
+		if !ok || e2 != nil {
 			return m, false
 		}
-		m.kv = append(m.kv, c05KV{k, v})
+		for _, k := range ks {
+			m.kv = append(m.kv, c05KV{k, v})
+		}
 	}
 	return m, true
 }
@@ -230,12 +268,14 @@ func c05ParseSS(s string) (c05SS, bool) {
 		if len(p) != 2 {
 			return m, false
 		}
-		k, e1 := strconv.Atoi(p[0])
+		ks, okk := c05ParseKeys(p[0])
 		v, spare, ok := c05ParseIntsSpare(p[1])
-		if e1 != nil || !ok {
+		if !okk || !ok {
 			return m, false
 		}
-		m.ks = append(m.ks, c05KS{k, v, spare})
+		for _, k := range ks {
+			m.ks = append(m.ks, c05KS{k, v, spare})
+		}
 	}
 	return m, true
 }
@@ -1725,6 +1765,50 @@ func c05Gen(tier string, rng *rand.Rand, emit func(string)) map[string]interface
 		}
 		out("Qrand", "Q "+strings.Join(opds, " ")+": "+strings.Join(ops, " ; "))
 	}
+	// ---- long operands: sizes crossing plausible fast-path thresholds (64/65, 128, 257, 1024, 4097; products of the
+	// two lengths around 4096 and 65536), with repeated values in every operand
+	pat50 := make([]string, 50)
+	for k := range pat50 {
+		pat50[k] = strconv.Itoa(k)
+	}
+	patPairs := [][2]string{
+		{"0.1.2.3.4.5.6", "3.7.0.8"},
+		{"0.0.1", "1.2"},
+		{strings.Join(pat50, "."), "40.41.45.49.50.51.60.40"},
+		{"5.9.5.2", "9.9.5.3.3.1.0.2.6"},
+	}
+	sizePairs := [][2]int{{64, 64}, {65, 64}, {64, 65}, {128, 32}, {128, 33}, {140, 35}, {35, 140}, {257, 16}, {256, 256}, {257, 256},
+		{1024, 5}, {1024, 64}, {1025, 65}}
+	bigPairs := [][2]int{{4097, 2}, {2, 4097}, {4097, 17}, {4097, 4097}}
+	if thorough {
+		sizePairs = append(sizePairs, [2]int{300, 300}, [2]int{2048, 33}, [2]int{33, 2048}, [2]int{65537, 2}, [2]int{2, 65537})
+	}
+	long := func(pat string, n int) string { return fmt.Sprintf("[%s*%d]", pat, n) }
+	for pi, pp := range patPairs {
+		sp := sizePairs
+		if pi < 2 {
+			sp = append(append([][2]int{}, sizePairs...), bigPairs...)
+		}
+		for _, sz := range sp {
+			a, b := long(pp[0], sz[0]), long(pp[1], sz[1])
+			out("Llong", "L "+a+" "+b+": "+c05Ops2)
+			out("Slong", fmt.Sprintf("S {0:%s,1:%s} {0:%s,2:%s}: %s", a, long(pp[1], 3), b, a, c05OpsS2))
+		}
+		for _, n := range []int{64, 65, 128, 257, 1024, 4097} {
+			out("Llong", "L "+long(pp[0], n)+": union ; inter ; diff ; distinct ; s.distinct")
+			out("Llong", "L "+long(pp[0], n)+" "+long(pp[1], 70)+" "+long(pp[0], 9)+": "+c05Ops3)
+		}
+	}
+	for _, r := range [][4]int{{0, 63, 32, 95}, {0, 64, 64, 128}, {0, 127, 100, 356}, {0, 256, 5, 9}, {0, 1023, 1000, 1100}, {0, 4096, 4000, 4200}, {10, 20, 0, 4096}} {
+		a := fmt.Sprintf("{%d-%d:1}", r[0], r[1])
+		b := fmt.Sprintf("{%d-%d:2,5000:3}", r[2], r[3])
+		out("Mlong", "M "+a+" "+b+": "+c05OpsM2)
+		out("Mlong", "M "+a+" "+b+" {0-4100:3}: "+c05OpsM3)
+		out("Slong", fmt.Sprintf("S {%d-%d:[0.1.1*3]} {%d-%d:[1.2*2]}: %s", r[0], r[1], r[2], r[3], c05OpsS2))
+	}
+	out("Qlong", "Q {0:[0.1.2.3.4.5.6*140+8],1:[1*65]} {0:[3.7.0.8*35]} {0:[6.6.9*64],1:[1.2*70]}: inter:0:1 ; union:0:2 ; minusstreams:0:1 ; inter:0:2")
+	out("Plong", "P [0.1.2.3.4.5.6*140+8] [3.7.0.8*35] [6.6.9*64]: inter:0:1 ; minus:0:2 ; extend:0:1 ; inter:0:2 ; distinct:0 ; rmitem:0:2")
+
 	// ---- kind P: Stream histories (spare capacity in the operands), all histories of 2 ops on 3 operand triples
 	pOps := func(n int) []string {
 		var res []string
@@ -1838,6 +1922,7 @@ func c05Gen(tier string, rng *rand.Rand, emit func(string)) map[string]interface
 			"triples: quick 22^3 (length <= 2 over 4 letters) + 86x6x6, thorough all 86^3; random arity 1..5, length <= 8, alphabet <= 7. " +
 			"M: all maps over 3 keys + nil + nil map, pairs and triples; random 6-key maps. " +
 			"S: all key->stream maps with <= 2 of 3 keys, streams of length <= 2 over 2 letters (incl. empty) + nil, all pairs; random 4-key maps, streams length <= 5 over 4 letters. " +
+			"long operands (written [pattern*n] / {a-b:v}): every binary set operation of the four levels on operand sizes 64/65/128/140/257/1024/1025/4097 (products of the lengths around 4096 and 65536) with repeated values, 4 pattern pairs. " +
 			"P / R: Stream (3 operand triples, spare capacity) and MapSet (6 operand pairs) histories: ALL histories of 2 ops, every object re-read after every op, + random histories of 2..4 ops. " +
 			"Q: 6 operand triples (streams with spare capacity) x ALL histories of 2 ops (39 x 68) with every object re-read after every op; random histories of 2..4 ops on 2..3 random operands",
 		"cases_by_kind": counts,
